@@ -154,6 +154,24 @@ Ltac bwalk unf :=
 (* conversion must never unfold the big generated constants when comparing two calls *)
 Local Strategy 1000 [fteik2d_p1 fteik2d_p2 sweep2d].
 
+(* on a grid with a single layer of nodes along one axis (or none) every loop of sweep2d is empty *)
+Lemma dir_range_small up n : n <= 1 -> dir_range up n = [].
+Proof.
+  intros Hn. destruct (dir_range up n) as [|i l] eqn:E; [reflexivity|]. exfalso.
+  assert (Hi : In i (dir_range up n)) by (rewrite E; left; reflexivity).
+  apply in_dir_range in Hi. destruct up; cbn in Hi; lia.
+Qed.
+Lemma for_list_id {S} (l : list Z) (s : S) : for_list l (fun _ t => t) s = s.
+Proof. apply (for_list_inv (fun t => t = s)); auto. Qed.
+Lemma sweep2d_small {T} `{Num T} (tt : arr T) ttsgn slow dz dx zsi xsi zsa xsa vzero nz nx grad :
+  nz <= 1 \/ nx <= 1 -> fst (sweep2d tt ttsgn slow dz dx zsi xsi zsa xsa vzero nz nx grad) = tt.
+Proof.
+  intros Hs. destruct (sweep2d_proj nz nx slow dz dx zsi xsi zsa xsa vzero) as (dargs & E & _).
+  rewrite E, sweep2dT_passes. unfold passT. destruct Hs as [Hs|Hs].
+  - unfold halfT. rewrite !(dir_range_small _ nz Hs). cbn [for_list fold_left]. rewrite !for_list_id. reflexivity.
+  - rewrite !(dir_range_small _ nx Hs). reflexivity.
+Qed.
+
 Section P2.
 Context {T : Type} `{Num T}.
 
@@ -340,6 +358,10 @@ Qed.
 Lemma init2d_tt grad : fst (fst (fst (fst (fst (fst (fst (fst (fst (init2d grad))))))))) = i_tt grad.
 Proof. reflexivity. Qed.
 
+(* degenerate model (a negative extent): the sweeps do nothing *)
+Lemma ptt_small grad t : dim slow 0 < 0 \/ dim slow 1 < 0 -> ptt grad t = t.
+Proof. intros Hs. unfold ptt, pass2d. cbn [fst snd]. rewrite i_nz_eq, i_nx_eq. apply sweep2d_small. lia. Qed.
+
 (* ---------- 6 ---------- *)
 Lemma i_tt_indep : i_tt true = i_tt false.
 Proof.
@@ -501,8 +523,6 @@ Qed.
 
 Section F2d.
 Variables (slow : arr float) (dz dx zsrc xsrc : float).
-Hypothesis Hz : 0 <= dim slow 0.
-Hypothesis Hx : 0 <= dim slow 1.
 Notation NZ := (dim slow 0 + 1).
 Notation NX := (dim slow 1 + 1).
 
@@ -513,12 +533,15 @@ Definition grid2d (grad : bool) (k : nat) : arr float :=
 Theorem fteik2d_converges grad : exists K, forall k, (K <= k)%nat -> grid2d grad k = grid2d grad K.
 Proof.
   unfold grid2d.
+  destruct (Z_lt_ge_dec (dim slow 0) 0) as [Hz|Hz]; [|destruct (Z_lt_ge_dec (dim slow 1) 0) as [Hx|Hx]].
+  1,2: exists O; intros k _; rewrite !(iter_fst _ _ (pass2d_fst slow dz dx zsrc xsrc grad)); cbn [fst];
+       induction k as [|k IH]; [reflexivity | rewrite iter_S, IH; apply ptt_small; lia].
   destruct (lowering_iter_converges (ptt slow dz dx zsrc xsrc grad) (okT NZ NX)) with (t0 := i_tt slow dz dx zsrc xsrc grad)
     as [K HK].
   - intros a Ha. destruct (ptt_lowers slow dz dx zsrc xsrc grad a Ha) as [Ho Hl].
     split; [exact Ho|]. split; [destruct Ho as [_ ->], Ha as [_ ->]; reflexivity|].
     apply (leT_Forall2 NZ NX); auto. lia.
-  - apply fteik2d_init_okT; assumption.
+  - apply fteik2d_init_okT; lia.
   - exists K. intros k Hk. rewrite !(iter_fst _ _ (pass2d_fst slow dz dx zsrc xsrc grad)). cbn [fst]. apply HK, Hk.
 Qed.
 
@@ -530,8 +553,9 @@ Corollary fteik2d_converges_results grad :
 Proof.
   destruct (fteik2d_converges grad) as [K HK]. exists (Z.of_nat K). intros n m ttn Gn vn ttm Gm vm Hnm En Em.
   apply fteik2d_ok_inv in En as (_ & -> & _). apply fteik2d_ok_inv in Em as (_ & -> & _).
-  unfold grid2d in HK. rewrite !(iter_fst _ _ (pass2d_fst slow dz dx zsrc xsrc grad)) in HK. cbn [fst] in HK.
-  rewrite (HK (Z.to_nat m)), (HK (Z.to_nat n)) by lia. reflexivity.
+  pose proof (HK (Z.to_nat m) ltac:(lia)) as Hm. pose proof (HK (Z.to_nat n) ltac:(lia)) as Hn.
+  unfold grid2d in Hm, Hn. rewrite !(iter_fst _ _ (pass2d_fst slow dz dx zsrc xsrc grad)) in Hm, Hn.
+  cbn [fst] in Hm, Hn. congruence.
 Qed.
 End F2d.
 End RankSum.
